@@ -111,6 +111,28 @@ def modelLine (fields : List String) : String :=
             full := s!"{n} {e} {Driver.toHex b}"
         return s!"encall {size} ok {nsz} {size + 1} {nclean} {Driver.hex64 h} {full}"
     | _, _ => "bad-op"
+  | "ptok" :: c :: r =>
+    match parseCoder? c, parseMsg? r with
+    | some f, some (m, _) =>
+      match marshalWithEncoder (coderOf f) { newMessage with msg := m } with
+      | .ok (wire, _) => s!"ptok ok {Driver.toHex wire} tok={Driver.toHex m.token}"
+      | .error e => s!"ptok {e.toString} - tok={Driver.toHex m.token}"
+    | _, _ => "bad-op"
+  | "usrv" :: _max :: n :: r =>
+    match n.toNat? with
+    | some n =>
+      match parseMsgs? n r with
+      | some (ms, []) =>
+        let l := ms.filterMap fun m =>
+          match marshalWithEncoder .udp { newMessage with msg := m } with
+          | .ok (wire, _) =>
+            match unmarshalWithDecoderN .udp newMessage wire with
+            | .ok (_, st) => some (fmtMsg st.msg)
+            | .error _ => none
+          | .error _ => none
+        if l.isEmpty then "usrv 0" else s!"usrv {l.length} | " ++ " | ".intercalate l
+      | _ => "bad-op"
+    | none => "bad-op"
   | "strm" :: _via :: _cache :: _cuts :: n :: r =>
     match n.toNat? with
     | some n =>
@@ -207,6 +229,19 @@ def judgeLine (inp out : List String) : String :=
         | _ => none
       (judgeEncAll f m size err nsz ncan fo).toString
     | _, _, _, _, _ => "bad-op"
+  | "ptok" :: c :: r, ["ptok", err, wire, tok] =>
+    match parseCoder? c, parseMsg? r, Driver.parseHex? wire, Driver.parseHex? (tok.drop 4).toString with
+    | some f, some (m, _), some w, some t => (judgePooledToken f m err w t).toString
+    | _, _, _, _ => "bad-op"
+  | "usrv" :: max :: n :: r, "usrv" :: _k :: rest =>
+    match max.toNat?, n.toNat? with
+    | some max, some n =>
+      match parseMsgs? n r with
+      | some (ms, []) =>
+        let obs := (splitBar rest).filter (· ≠ [])
+        (judgeDatagramServer (if max = 0 then 65536 else max) ms (obs.map fun o => (parseMsg? o).map (·.1))).toString
+      | _ => "bad-op"
+    | _, _ => "bad-op"
   | "strm" :: _via :: _cache :: _cuts :: n :: r, "strm" :: k :: closed :: rest =>
     match n.toNat?, k.toNat? with
     | some n, some _ =>
